@@ -7,6 +7,30 @@ NOTES = ("All checks: ./check <ID> [--tier quick|thorough]; seed from VERIF_SEED
 NOT_APPLICABLE = {}
 
 CHECKS = {
+ "C08": {
+  "level": "exploration",
+  "technique": "model-based property testing over call histories: shared target / shared prepared database vs fresh single-query grounding",
+  "text": "Operation histories (ground query, ground evidence +/-, engine.query, fresh target) over one prepared ClauseDB and one shared target; after every step each query's probabilities must equal those of grounding it alone with the same evidence.",
+  "note": "Differential between two uses of the same engine code; probability mode.",
+ },
+ "C14": {
+  "level": "exploration",
+  "technique": "bounded-exhaustive enumeration of term pairs + Hypothesis terms against a reference Robinson unifier (=/2, \\=/2, clause-head resolution, two call levels)",
+  "text": "Every pair of terms up to size 5 over a small signature (sampled in the quick tier, exhaustive in thorough) is unified by =/2, refuted by \\=/2 and resolved against clause heads; answers must be the mgu instance modulo renaming, non-unifiable pairs must fail, occurs-check pairs must fail or raise.",
+  "note": "Five listed findings (F-C14-1..5) are excluded by (signature, class computed by the reference unifier).",
+ },
+ "C18": {
+  "level": "exploration",
+  "technique": "bounded-exhaustive enumeration of term pairs/triples built with the public constructors and the parser: equivalence laws, hash consistency, equality vs engine unification",
+  "text": "All pairs of a 716-term universe (and sampled triples): == reflexive/symmetric/transitive, equal terms hash equally and collide as dict keys, ground terms are equal iff they unify in the engine.",
+  "note": "Seven listed design-level findings (F-C18-1..7) excluded by (signature, class computed from the construction recipes).",
+ },
+ "C25": {
+  "level": "translation_validation",
+  "technique": "translation validation of every export instance: to_prolog() re-parsed and re-evaluated, DIMACS re-read and compared by model tables",
+  "text": "For each generated program the ground program is exported as the ground task does (LogicFormula and LogicDAG routes), re-evaluated and compared with the original; CNF.to_dimacs() is re-read by an independent reader and must have the internal CNF's models.",
+  "note": "Re-evaluation uses ProbLog itself; the LogicDAG export of recursive programs with ADs is a listed finding (F-C25-3).",
+ },
  "C05": {
   "level": "exploration",
   "technique": "property-based differential testing: every available back end x {prob, logprob, harness-defined, NSP, symbolic} semiring vs the default configuration and the reference semantics",
